@@ -79,6 +79,15 @@ FLOWS = {
             " I --- 37:171871 63:262142 --:------ 10E0 038 000001C894030167FFFFFFFFFFFF1B0807E4564D492D313557534A3533000000000000000000",
         ),
     },
+    "RND-CTL-00": {  # as RND-CTL, the controller accepting for zone 00 (public entry point only)
+        "resp": {"01:220768": {"class": "CTL"}},
+        "supp": {"34:259472": {"class": "RND", "faked": True}},
+        "pkts": (
+            " I --- 34:259472 --:------ 34:259472 1FC9 024 0023098BF5900030C98BF5900000088BF590001FC98BF590",
+            " W --- 01:220768 34:259472 --:------ 1FC9 006 002309075E60",
+            " I --- 34:259472 01:220768 --:------ 1FC9 001 00",
+        ),
+    },
     "REM-FAN-orcon": {
         "resp": {"32:155617": {"class": "FAN", "scheme": "orcon"}},
         "supp": {"29:158183": {"class": "REM", "scheme": "orcon", "faked": True}},
@@ -321,7 +330,7 @@ def run_world(params: dict, prefix=(), expect=None):
 
 
 # ---------------------------------------------------------------------------------------------------------
-def _judge_attempt(tag: str, att: dict, flow: dict, must_succeed: bool, out: list, ctx: str, api: bool = False) -> None:
+def _judge_attempt(tag: str, att: dict, flow: dict, must_succeed: bool, out: list, ctx: str, api: bool = False, api_tag: str = "") -> None:
     exp = [p for p in flow["pkts"]]
     for name, bound in (("resp", END_BOUND_RESP), ("supp", END_BOUND_SUPP)):
         rec = att.get(name)
@@ -340,7 +349,7 @@ def _judge_attempt(tag: str, att: dict, flow: dict, must_succeed: bool, out: lis
             #  of the binding attempt', the weaker reading - DESIGN section 5; anything that is not a library error is flagged)
             out.append((f"C20:{tag}:internal-error:{name}:{r[1]}", f"the {name}'s attempt raised {r[1]} ({r[4]}), not a binding error ({ctx})"))
         if must_succeed and r[0] != "ok":
-            out.append((f"C20:{tag}:fails-without-loss:{name}:{r[1] if len(r) > 1 else r[0]}", f"nothing was lost or late, yet the {name}'s attempt ended with {r[:2]} ({ctx})"))
+            out.append((f"C20:{tag}:fails-without-loss:{name}:{r[1] if len(r) > 1 else r[0]}{api_tag}", f"nothing was lost or late, yet the {name}'s attempt ended with {r[:2]} ({ctx})"))
     rr, sr = att.get("resp", {}).get("res"), att.get("supp", {}).get("res")
     if rr and sr and rr[0] == "ok" and sr[0] == "ok":
         a, b = rr[1], sr[1]
@@ -382,7 +391,8 @@ def oracle(obs: dict, params: dict) -> list[tuple[str, str]]:
     api = bool(params.get("api"))
     if api:
         ctx += ", public initiate_binding_process()"
-    _judge_attempt("first", obs["first"], flow, benign_only, out, ctx, api)
+    api_tag = f":public-api:{params['flow']}" if api else ""
+    _judge_attempt("first", obs["first"], flow, benign_only, out, ctx, api, api_tag)
     st = obs["state_at_end"]
     for role in ("resp", "supp"):
         if st[f"{role}_binding"]:
@@ -391,7 +401,7 @@ def oracle(obs: dict, params: dict) -> list[tuple[str, str]]:
         if _unretrieved_binding_failure(e):
             continue
         out.append((f"C20:loop-exception:{e[0]}:{e[2]}", f"unhandled in the event loop: {e} ({ctx})"))
-    _judge_attempt("retry", obs["second"], flow, True, out, ctx + ", fresh attempt after the episode", api)
+    _judge_attempt("retry", obs["second"], flow, True, out, ctx + ", fresh attempt after the episode", api, api_tag)
     sf = obs["state_final"]
     for role in ("resp", "supp"):
         if sf[f"{role}_binding"]:
@@ -415,7 +425,7 @@ def scenarios(quick: bool) -> list[tuple[dict, int]]:
     sc: list[tuple[dict, int]] = []
     allk = ("rep", "lose", "late", "third", "cancel")
     for flow in FLOWS:
-        if flow == "REM-FAN-orcon":
+        if flow in ("REM-FAN-orcon", "RND-CTL-00"):
             continue  # (only driven through the public entry point below: the table row is not one of the repo's five)
         # every pattern of repeats over all frames of the handshake (benign only): D = number of frames
         sc.append(({"flow": flow, "dev": ("rep",)}, 3 if quick else 4))
@@ -425,7 +435,7 @@ def scenarios(quick: bool) -> list[tuple[dict, int]]:
     for flow in ("RND-CTL", "REM-FAN"):
         sc.append(({"flow": flow, "dev": ("lose", "late", "cancel"), "retry_after": 12.0}, 2))
     # the public entry points (code list chosen by the device class / vendor scheme)
-    for flow in ("RND-CTL", "CO2-FAN", "REM-FAN", "DHW-CTL", "REM-FAN-orcon"):
+    for flow in ("RND-CTL", "RND-CTL-00", "CO2-FAN", "REM-FAN", "DHW-CTL", "REM-FAN-orcon"):
         sc.append(({"flow": flow, "api": True, "dev": allk}, 2 if quick else 3))
     # who starts first, and by how much (around the 5 s offer wait)
     for flow in ("DHW-CTL", "CO2-FAN"):
